@@ -239,6 +239,12 @@ def touched_paths(ev):
     return []
 
 
+def configuration_reset(prev, step):
+    """did this process see a different configuration hash than the previous one (WorkerTree::reset)?"""
+    before = (prev.get("state") or {}).get("hash")
+    return before is not None and before != step["state"].get("hash")
+
+
 def attempts(rec):
     """for every process step: source -> (step of its last attempt, files that attempt certainly
     read and inlined according to the harness's knowledge of the templates)"""
@@ -252,6 +258,8 @@ def attempts(rec):
         if step["ev"] == "P" and step.get("state"):
             pending = None if prev is None or not prev.get("state") else {
                 it["source"] for it in prev["state"]["items"] if it["status"] == "not_started"}
+            if pending is not None and configuration_reset(prev, step):
+                pending = None        # the configuration hash changed: reset, every item is attempted again
             for it in step["state"]["items"]:
                 if it["status"] in ("ok", "err") and (pending is None or it["source"] in pending):
                     last[it["source"]] = (k, set(step.get("read_before_failure", {}).get(it["source"], [])))
@@ -268,6 +276,8 @@ def failed_run_dependencies(rec):
     for k, step in enumerate(rec["steps"]):
         if step["ev"] == "P" and step.get("state") and "read_before_failure" in step and prev and prev.get("state"):
             pending = {it["source"] for it in prev["state"]["items"] if it["status"] == "not_started"}
+            if configuration_reset(prev, step):
+                pending = {it["source"] for it in step["state"]["items"]}
             for it in step["state"]["items"]:
                 want = set(step["read_before_failure"].get(it["source"], []))
                 if it["status"] == "err" and it["source"] in pending and not want <= set(it["deps"]):
